@@ -45,4 +45,152 @@ structure Same (s t : State) : Prop where
   names : s.names = t.names
   stack : s.stack = t.stack
 
+/-- Outcomes of a lookup, up to the enumeration order of an ambiguous candidate set: the same backend,
+the same error, or "several candidates" with the same uids in some order. -/
+def OutEq : Except Err Backend → Except Err Backend → Prop
+  | .ok a, .ok b => a = b
+  | .error (.multiple us), .error (.multiple vs) => us.Perm vs
+  | .error e, .error e' => e = e'
+  | _, _ => False
+
+/-- "uid determines the backend" on a list (implied by distinct uids). -/
+def UidInj (U : List Backend) : Prop := ∀ x ∈ U, ∀ y ∈ U, x.uid = y.uid → x = y
+
+/-- The same *set* of registered backends (in any order, uid determines the backend), the same
+name map as a function, the same `with` stack. -/
+structure SameSet (s t : State) : Prop where
+  mem : ∀ b, b ∈ s.backends ↔ b ∈ t.backends
+  injL : UidInj s.backends
+  injR : UidInj t.backends
+  names : ∀ n, dictGet s.names n = dictGet t.names n
+  stack : s.stack = t.stack
+
+/-- The state a sequence of operations *should* lead to, ignoring every lookup: registrations append,
+`with` blocks push and pop (an unbalanced `exit` raises and changes nothing). -/
+def specStep (s : State) : Op → State
+  | .register b => { s with backends := s.backends ++ [b], names := dictSet s.names b.name b }
+  | .enter b => s.enter b
+  | .exit b => match s.exit b with
+    | .ok s' => s'
+    | .error _ => s
+  | _ => s
+
+def specState (ops : List Op) : State := ops.foldl specStep {}
+
+/-- The backends registered eagerly by a sequence of operations, in registration order. -/
+def regsOf (ops : List Op) : List Backend := ops.filterMap fun
+  | .register b => some b
+  | _ => none
+
+/-- Eager registration of a list of backends, one after the other. -/
+def registerAll (cfg : Cfg) (s : State) (bs : List Backend) : State := bs.foldl (fun s b => s.register cfg b) s
+
+/-- No lazy registration. -/
+def Op.isEager : Op → Bool
+  | .registerOnImport _ _ => false
+  | _ => true
+
+/-- Lookups and module imports: the operations that must not influence later choices. -/
+def Op.isLookup : Op → Bool
+  | .get _ _ => true
+  | .getByName _ => true
+  | .importModule _ => true
+  | _ => false
+
+/-! ### lazy registration -/
+
+/-- The *effective* state: what `_check_new_imports` makes of the state right now – every factory that
+waits for an already imported module has been run (in the order the implementation runs them). -/
+def State.flush (cfg : Cfg) (s : State) (mods : List String) : State := (s.checkNewImports cfg mods false).1
+
+/-- A module that has been seen has no waiting factory (an invariant of every reachable world, see
+`runOps_wellFormed`). -/
+def WellFormed (w : World) : Prop :=
+  (∀ m ∈ w.st.seen, m ∈ w.mods) ∧ ∀ m ∈ w.st.seen, dictGet w.st.uninit m = none
+
+/-- The discipline einx's own registrations follow, as a condition on the state in which a lookup happens
+(all three parts are decidable):
+* `memo` – a memoised choice for these argument types is still what the effective state selects
+  ("tensors of a framework only exist after its module is imported": no lookup with these types happened
+  before the factories that accept them were due);
+* `types` – a type that some registered backend accepts is not also accepted by a waiting factory
+  (all backends of a framework are registered on the same module, in one block);
+* `names` – waiting factories do not re-register an existing name (distinct names). -/
+structure LazyDiscipline (cfg : Cfg) (s : State) (mods : List String) (tys : List Nat) : Prop where
+  memo : ∀ en ∈ s.memo, en.1 = tys → select (s.flush cfg mods) tys = [en.2]
+  types : ∀ ty ∈ tys, supporting s.backends ty ≠ [] →
+    supporting (s.flush cfg mods).backends ty = supporting s.backends ty
+  names : ∀ kv ∈ s.names, dictGet (s.flush cfg mods).names kv.1 = dictGet s.names kv.1
+
+instance (cfg : Cfg) (s : State) (mods : List String) (tys : List Nat) : Decidable (LazyDiscipline cfg s mods tys) :=
+  decidable_of_iff
+    ((∀ en ∈ s.memo, en.1 = tys → select (s.flush cfg mods) tys = [en.2]) ∧
+     (∀ ty ∈ tys, supporting s.backends ty ≠ [] →
+        supporting (s.flush cfg mods).backends ty = supporting s.backends ty) ∧
+     (∀ kv ∈ s.names, dictGet (s.flush cfg mods).names kv.1 = dictGet s.names kv.1))
+    ⟨fun h => ⟨h.1, h.2.1, h.2.2⟩, fun h => ⟨h.memo, h.types, h.names⟩⟩
+
+/-! ### the registration discipline, as a check on operation sequences -/
+
+/-- "valid backend accepts this tensor type" – the test of `supporting`. -/
+def accepts (b : Backend) (ty : Nat) : Bool := !b.invalid && b.accepts.contains ty
+
+/-- No tensor type is accepted by both backends. -/
+def disjointTypes (a b : Backend) : Bool := a.accepts.all (fun ty => !(accepts a ty && accepts b ty))
+
+/-- What the discipline check remembers of a history – nothing of the registry's state: the imported modules, the
+backends registered eagerly (by `register`, or by `register_on_import` for an already imported module), the
+factories registered lazily with their module, and the tensor types that occurred in lookups. -/
+structure Track where
+  mods : List String := []
+  eager : List Backend := []
+  lazies : List (String × Factory) := []
+  looked : List Nat := []
+deriving Repr
+
+def Track.products (t : Track) : List Backend := t.eager ++ t.lazies.map (·.2.produces)
+
+/-- A name that no earlier registration used. -/
+def Track.fresh (t : Track) (b : Backend) : Bool := t.products.all (fun x => x.name != b.name)
+
+/-- **The discipline**, one operation at a time:
+* every registration uses a new name;
+* *type ownership*: the tensor types accepted by a lazily registered backend are accepted by no eagerly registered
+  backend and by no lazily registered backend of another module ("all backends of a framework are registered on
+  that framework's module");
+* *tensors of a framework only exist after its module is imported*: a lookup does not involve a type that a
+  factory waiting for a not yet imported module accepts – whether the factory was registered before the lookup
+  (checked at the lookup) or after it (checked at the registration). -/
+def Track.ok (t : Track) : Op → Bool
+  | .register b => t.fresh b && t.lazies.all (fun mf => disjointTypes b mf.2.produces)
+  | .registerOnImport m f =>
+    t.fresh f.produces &&
+    (if t.mods.contains m then t.lazies.all (fun mf => disjointTypes f.produces mf.2.produces)
+     else t.eager.all (fun b => disjointTypes b f.produces) &&
+          t.lazies.all (fun mf => mf.1 == m || disjointTypes mf.2.produces f.produces) &&
+          t.looked.all (fun ty => !accepts f.produces ty))
+  | .get _ tys => t.lazies.all (fun mf => t.mods.contains mf.1 || tys.all (fun ty => !accepts mf.2.produces ty))
+  | _ => true
+
+def Track.step (t : Track) : Op → Track
+  | .register b => { t with eager := t.eager ++ [b] }
+  | .registerOnImport m f =>
+    if t.mods.contains m then { t with eager := t.eager ++ [f.produces] } else { t with lazies := t.lazies ++ [(m, f)] }
+  | .importModule m => { t with mods := if t.mods.contains m then t.mods else t.mods ++ [m] }
+  | .get _ tys => { t with looked := t.looked ++ tys }
+  | _ => t
+
+/-- A history follows the discipline (decidable: a `Bool`). -/
+def disciplined (t : Track) : List Op → Bool
+  | [] => true
+  | op :: ops => t.ok op && disciplined (t.step op) ops
+
+/-- What a history has registered *effectively*: the backends registered eagerly, and the products of the
+factories registered lazily for a module that is imported by now. -/
+def Track.effective (t : Track) : List Backend :=
+  t.eager ++ (t.lazies.filter (fun mf => t.mods.contains mf.1)).map (·.2.produces)
+
+/-- What the discipline check remembers after a history. -/
+def trackOf (mods₀ : List String) (ops : List Op) : Track := ops.foldl Track.step { mods := mods₀ }
+
 end Einx.Registry
